@@ -151,6 +151,8 @@ def _candidates(ctx, f, c):
                     return []  # rebound to something opaque
                 for e in elts:
                     t = p.lookup(f.module, e.id) if isinstance(e, ast.Name) else None
+                    if t is None and isinstance(e, ast.Attribute) and isinstance(e.value, ast.Name) and e.value.id == "self" and f.cls is not None:
+                        t = f.cls.find(e.attr)      # a bound method of the same object
                     if not isinstance(t, FuncInfo):
                         return []
                     local.append(t)
